@@ -114,12 +114,12 @@ class CallMixin:
     def assumed_model(self, name, ret):
         def model(eng, st, args, kwargs, node):
             eng.used_assumed.add(name)
-            if name in eng.reg.pure_calls and (isinstance(ret, z3.SortRef) or ret in ('opaque', 'nonnull')) and not kwargs:
+            if name in eng.reg.pure_calls and (isinstance(ret, z3.SortRef) or (isinstance(ret, str) and ret in ('opaque', 'nonnull'))) and not kwargs:
                 # assumed pure: an uninterpreted function of its arguments (same arguments, same result), never raises
                 targs = [eng.as_obj(a) for a in args if not isinstance(a, VObj)]
                 f = z3.Function('assumed:' + name, *[t.sort() for t in targs], ret if isinstance(ret, z3.SortRef) else Obj)
                 r = lift(f(*targs))
-                if ret == 'nonnull':
+                if isinstance(ret, str) and ret == 'nonnull':
                     r.nonnull = True
                 return [(st, r)]
             out = [(st, fresh(ret, hint=name.split('.')[-1]))]
